@@ -16,7 +16,14 @@ import (
 
 // opRand generates an operation's operands deterministically from a seed, so
 // that the reference execution and the simulated one work on identical data.
-type opRand struct{ s uint64 }
+type opRand struct {
+	s uint64
+	// When viewStride > 0, dense() hands out views of wider matrices: the
+	// r x c result sits at column viewOff of an r x viewStride matrix, so
+	// that operands have the stride (and column offset) of the receiver's
+	// backing matrix. Used by the views scenario.
+	viewStride, viewOff int
+}
 
 func (r *opRand) next() float64 {
 	r.s += 0x9e3779b97f4a7c15
@@ -28,6 +35,15 @@ func (r *opRand) next() float64 {
 }
 
 func (r *opRand) dense(m, n int) *mat.Dense {
+	if r.viewStride > 0 && r.viewOff+n <= r.viewStride && r.viewStride > n {
+		wide := mat.NewDense(m, r.viewStride, nil)
+		for i := 0; i < m; i++ {
+			for j := 0; j < r.viewStride; j++ {
+				wide.Set(i, j, r.next())
+			}
+		}
+		return wide.Slice(0, m, r.viewOff, r.viewOff+n).(*mat.Dense)
+	}
 	d := mat.NewDense(m, n, nil)
 	for i := 0; i < m; i++ {
 		for j := 0; j < n; j++ {
